@@ -22,7 +22,42 @@ LEVEL = "model_checking"
 VALS = [("x", "x"), ("1", 1), ('"q r"', "q r"), ("(1, 2)", [1, 2]),
         ("1.5 <m>", ("Q", 1.5, "m")), ("2001-01-01", dt.date(2001, 1, 1)),
         ("NULL", None), ("{a, b}", ("SET", ["a", "b"])), ("-7", -7), ("'s'", "s")]
-LAYOUTS = ["nl", "blank", "two", "comment", "crlf", "eqline", "noend", "semi", "hash", "indent"]
+FEATURES = {
+    "eq": ["same", "ownline", "valuenext"],     # where '=' / the value sit relative to the name
+    "gap": ["bare", "semi", "hash", "comment"],  # what follows the '=' of an emptied parameter
+    "delim": [False, True],                     # ';' after statements that have a value
+    "nl": ["\n", "\r\n"],
+    "between": ["none", "blank", "comment"],    # lines between statements
+    "end": [True, False],                       # END statement present
+    "pack": [False, True],                      # two statements per physical line
+    "indent": ["spaces", "tabs"],
+}
+CANON = {k: v[0] for k, v in FEATURES.items()}
+
+
+PAIRS = [("gap", "delim"), ("eq", "end"), ("eq", "gap"), ("end", "gap"), ("between", "gap"), ("gap", "pack"),
+         ("end", "nl"), ("eq", "nl")]
+PAIRS = [tuple(sorted(p)) for p in PAIRS]
+
+
+def layouts(dev):
+    """all layouts that deviate from the canonical one in <= dev features
+    (dev = 1.5: all single deviations plus the feature pairs in PAIRS)"""
+    names = sorted(FEATURES)
+    out = [dict(CANON)]
+    for k in range(1, int(dev) + 1 + (1 if dev == 1.5 else 0)):
+        for pos in itertools.combinations(names, k):
+            if k == 2 and dev == 1.5 and pos not in PAIRS:
+                continue
+            for alt in itertools.product(*[FEATURES[p][1:] for p in pos]):
+                lay = dict(CANON)
+                lay.update(dict(zip(pos, alt)))
+                out.append(lay)
+    return out
+
+
+def lay_name(lay):
+    return ",".join("%s=%s" % (k, lay[k]) for k in sorted(lay) if lay[k] != CANON[k]) or "canonical"
 
 
 def docs(quick):
@@ -30,14 +65,16 @@ def docs(quick):
     vr = range(len(VALS))
     for n in (1, 2, 3):
         dom = vr if n < 3 else (0, 1, 3, 4)
-        if quick and n == 2:
-            dom = range(8)
+        if quick:
+            dom = {1: vr, 2: (0, 1, 2, 3, 4), 3: (0, 1, 3)}[n]
         for vs in itertools.product(dom, repeat=n):
             yield [["A", names[i], v] for i, v in enumerate(vs)]
     core = (0, 1, 2) if not quick else (0, 1)
     for v1, v2, v3 in itertools.product(core, repeat=3):
         for kw in ("GROUP", "OBJECT"):
             for endname in (True, False):
+                if quick and (v1 != v3) and endname:
+                    continue
                 yield [["A", "a", v1], ["B", kw, "g", [["A", "b", v2], ["A", "c", v3]], endname],
                        ["A", "d", v1]]
                 yield [["B", kw, "g", [["A", "b", v2], ["B", "OBJECT", "o", [["A", "c", v3]], endname],
@@ -55,73 +92,75 @@ def assigns(doc, path=()):
             yield from assigns(s[3], path + (i,))
 
 
-def render(doc, empty, layout):
-    """-> (text, expected tree, expected sorted error lines).  The expected
-    tree uses ("EMPTY", line) for placeholders."""
-    lines = []     # each entry is one physical line
-    errs = []
+def render(doc, empty, lay):
+    """-> (text, expected tree, expected sorted error lines).  The generator
+    records the character offset of the '=' of every emptied parameter; its
+    1-based line is counted on the finished text."""
+    stmts_out = []     # list of statement strings (may contain newlines), with marks
+    marks = []         # (statement index, offset of '=' inside the statement, tree slot)
+    nl = lay["nl"]
 
     def emit(stmts, path, level):
         tree = []
         for i, s in enumerate(stmts):
             p = path + (i,)
-            ind = ("  " * level) if layout != "indent" else ("\t" * (level + 1))
+            ind = ("  " * level) if lay["indent"] == "spaces" else ("\t" * (level + 1))
             if s[0] == "A":
                 name, (vtext, vexp) = s[1], VALS[s[2]]
+                head = ind + name + (nl + ind + "=" if lay["eq"] == "ownline" else " =")
                 if p in empty:
-                    if layout == "eqline":
-                        lines.append(ind + name)
-                        lines.append(ind + "=")
-                    elif layout == "semi":
-                        lines.append(ind + name + " = ;")
-                    elif layout == "hash":
-                        lines.append(ind + name + " =   # no value given")
-                    else:
-                        lines.append(ind + name + " =")
-                    ln = len(lines)
-                    errs.append(ln)
-                    tree.append((name, ("EMPTY", ln)))
+                    tail = {"bare": "", "semi": " ;", "hash": "   # no value given",
+                            "comment": " /* none */"}[lay["gap"]]
+                    slot = [name, None]
+                    tree.append(slot)
+                    marks.append((len(stmts_out), len(head) - 1, slot))
+                    stmts_out.append(head + tail)
                 else:
-                    if layout == "eqline":
-                        lines.append(ind + name)
-                        lines.append(ind + "= " + vtext)
-                    else:
-                        lines.append(ind + name + " = " + vtext + (";" if layout == "semi" else ""))
-                    tree.append((name, vexp))
-                if layout == "blank":
-                    lines.append("")
-                if layout == "comment":
-                    lines.append(ind + "/* note = 1 */")
+                    sep = (nl + ind + "    ") if lay["eq"] == "valuenext" else " "
+                    stmts_out.append(head + sep + vtext + (";" if lay["delim"] else ""))
+                    tree.append([name, vexp])
             else:
-                lines.append(ind + s[1] + " = " + s[2])
+                stmts_out.append(ind + s[1] + " = " + s[2] + (";" if lay["delim"] else ""))
                 sub = emit(s[3], p, level + 1)
-                lines.append(ind + "END_" + s[1] + (" = " + s[2] if s[4] else ""))
-                tree.append((s[2], (s[1][0], sub)))
+                stmts_out.append(ind + "END_" + s[1] + (" = " + s[2] if s[4] else "") + (";" if lay["delim"] else ""))
+                tree.append([s[2], (s[1][0], sub)])
         return tree
 
     tree = emit(doc, (), 0)
-    if layout != "noend":
-        lines.append("END")
-    nl = "\r\n" if layout == "crlf" else "\n"
-    if layout == "two":
-        new, mapping = [], {}
-        for j in range(0, len(lines), 2):
-            new.append(" ".join(lines[j:j + 2]))
-            for k in (j, j + 1):
-                mapping[k + 1] = len(new)
+    if lay["end"]:
+        stmts_out.append("END")
+    # assemble
+    pieces, offsets = [], {}
+    pos = 0
+    for i, st in enumerate(stmts_out):
+        offsets[i] = pos
+        pieces.append(st)
+        pos += len(st)
+        last = i == len(stmts_out) - 1
+        if lay["pack"] and i % 2 == 0 and not last and "#" not in st:
+            sep = " "
+        else:
+            sep = nl
+            if lay["between"] == "blank":
+                sep += nl
+            elif lay["between"] == "comment":
+                sep += "/* note = 1 */" + nl
+            if last and not lay["end"] and "#" not in st:
+                sep = ""
+        pieces.append(sep)
+        pos += len(sep)
+    text = "".join(pieces)
+    errs = []
+    for si, off, slot in marks:
+        line = text.count("\n", 0, offsets[si] + off) + 1
+        assert text[offsets[si] + off] == "=", (text, si, off)
+        slot[1] = ("EMPTY", line)
+        errs.append(line)
 
-        def remap(t):
-            out = []
-            for k, v in t:
-                if isinstance(v, tuple) and v and v[0] == "EMPTY":
-                    out.append((k, ("EMPTY", mapping[v[1]])))
-                elif isinstance(v, tuple) and v and v[0] in ("G", "O"):
-                    out.append((k, (v[0], remap(v[1]))))
-                else:
-                    out.append((k, v))
-            return out
-        return nl.join(new), remap(tree), sorted(mapping[e] for e in errs)
-    return nl.join(lines) + ("" if layout == "noend" else nl), tree, sorted(errs)
+    def fin(t):
+        return [(k, (v[0], fin(v[1])) if isinstance(v, tuple) and v and v[0] in ("G", "O") else v)
+                for k, v in t]
+    return text, fin(tree), sorted(errs)
 
 
 def conv(v):
@@ -150,6 +189,8 @@ def check_text(doc, empty, layout):
     text, tree, errs = render(doc, set(empty), layout)
     out = []
     case = {"doc": doc, "empty": [list(e) for e in empty], "layout": layout}
+    if "-\n" in text or "-\r" in text:
+        return text, out
     r = loaders.outcome("OMNI", text)
     if r[0] != "ok":
         out.append({"case": case, "diagnosis": "default-loader-rejects:" + loaders.brief(r),
@@ -173,32 +214,36 @@ def check_text(doc, empty, layout):
     return text, out
 
 
-def shard(doc_list):
+def shard(spec):
+    doc_list, dev = spec
     acc = Acc()
+    LAY = layouts(dev)
     for doc in doc_list:
         A = list(assigns(doc))
         for r in range(1, len(A) + 1):
             for empty in itertools.combinations(A, r):
-                for layout in LAYOUTS:
+                for layout in LAY:
                     text, vs = check_text(doc, empty, layout)
+                    ln = lay_name(layout)
                     acc.n += 4
                     acc.traces += 1
-                    acc.sets["neigh"].add((layout, r, len(A)))
+                    acc.sets["neigh"].add((ln, r, len(A)))
                     if vs:
                         acc.outcomes["violation"] += 1
                         for v in vs:
                             acc.violation(v["case"], v["diagnosis"], v["detail"],
-                                          sig=v["diagnosis"] + "|" + layout + "|" + text[:60])
+                                          sig=v["diagnosis"] + "|" + ln + "|" + text[:60])
                     else:
                         acc.nontrivial += 1
-                        acc.outcomes["ok:" + layout] += 1
-        acc.sample({"doc": doc}, cap=1)
+                        acc.outcomes["ok"] += 1
+        acc.sample({"doc": doc, "example_text": render(doc, set(A[:1]), LAY[-1])[0]}, cap=1)
     return acc
 
 
 def run(ctx):
     D = list(docs(ctx.quick))
-    specs = [D[i::128] for i in range(128) if D[i::128]]
+    dev = 1.5 if ctx.quick else 2
+    specs = [(D[i::128], dev) for i in range(128) if D[i::128]]
     acc = ctx.pmap(shard, specs)
     cov = {
         "evaluations": acc.n, "distinct_nontrivial": acc.nontrivial,
@@ -206,11 +251,11 @@ def run(ctx):
         "traces_validated_against_impl": acc.traces,
         "rule": "%d reference documents (flat 1-3 assignments over %d value kinds, 4 assignments with duplicate "
                 "names, group/object with nested object, end names on/off) x every non-empty subset of "
-                "assignments emptied x %d layouts %r; each text run on the default loader (tree, placeholder "
+                "assignments emptied x %d layouts (all <= %d-feature deviations from one-statement-per-line over features %r); each text run on the default loader (tree, placeholder "
                 "lines, errors) and on the strict PVL/ODL/PDS3 parsers (must raise); states = distinct "
                 "(layout, gaps, assignments) neighbourhood classes; non-trivial = all four verdicts as required"
-                % (len(D), len(VALS), len(LAYOUTS), LAYOUTS),
-        "layout_histogram": dict(acc.outcomes),
+                % (len(D), len(VALS), len(layouts(dev)), dev, {k: [str(x) for x in v] for k, v in FEATURES.items()}),
+        "outcome_histogram": dict(acc.outcomes),
         "samples": acc.samples[:6], "exhaustive": True,
     }
     return {"coverage": cov, "violations": acc.violations, "violations_total": acc.vio_total,
@@ -230,8 +275,10 @@ def replay(case):
 
 
 def candidates(case):
-    if case["layout"] != "nl":
-        yield dict(case, layout="nl")
+    lay = case["layout"]
+    for k in sorted(lay):
+        if lay[k] != CANON[k]:
+            yield dict(case, layout=dict(lay, **{k: CANON[k]}))
     e = case["empty"]
     for i in range(len(e)):
         if len(e) > 1:
